@@ -134,6 +134,42 @@ def listing_case():
     return st.builds(lambda p: {"kind": "listing", "prog": p}, st.lists(any_ins, min_size=1, max_size=25))
 
 
+GR = [0, 1, 9, 10, 19, 20, 31]           # register numbers incl. two-digit ones that share a prefix with x1 / x2
+GI12 = [0, 1, -1, 2047, -2048, 5, -5, 1024, 0x7FE]
+GB13 = [0, 2, -2, 4094, -4096, 4, -4, 2048, -2048]
+
+
+def grid_instructions(op):
+    """Deterministic operand grid for one mnemonic (registers x immediates boundaries; full CSR number sweep)."""
+    import itertools as it
+    if op in rv32.R_OPS:
+        return [[op, a, b, c] for a, b, c in it.product(GR, GR, GR)]
+    if op in rv32.I_OPS or op in rv32.LOAD_OPS or op == "jalr" or op in rv32.STORE_OPS:
+        return [[op, a, b, i] for a, b, i in it.product(GR, GR, GI12)]
+    if op in rv32.SH_OPS:
+        return [[op, a, b, i] for a, b, i in it.product(GR, GR, [0, 1, 15, 16, 31])]
+    if op in rv32.BRANCH_OPS:
+        return [[op, a, b, i] for a, b, i in it.product(GR, GR, GB13)]
+    if op in rv32.U_OPS:
+        return [[op, a, i] for a, i in it.product(GR, [0, 1, -1, 0x7FFFF, -0x80000, 0x12345])]
+    if op == "jal":
+        return [[op, a, i] for a, i in it.product(GR, [0, 2, -2, 4, -4, (1 << 20) - 2, -(1 << 20), 64, -64])]
+    if op in CSR_OPS:
+        return [[op, a, c, b] for a, b, c in it.product([0, 10, 31], [1, 19], [0, 1, 0x7FF, 0x800, 0xFFF, 0xC00])] + \
+               ([[op, 1, c, 2] for c in range(4096)] if op == "csrrw" else [])
+    if op in CSRI_OPS:
+        return [[op, a, c, u] for a, c, u in it.product([0, 10, 31], [0, 0x10B, 0xFFF, 0x800], [0, 1, 15, 16, 31])] + \
+               ([[op, 1, c, 7] for c in range(4096)] if op == "csrrwi" else [])
+    return [[op]]
+
+
+def grid_cases(ops, pads=(0, 1, 3)):
+    for op in ops:
+        ins = grid_instructions(op)
+        for k in range(0, len(ins), 48):
+            yield {"kind": "batch", "pad": pads[(k // 48) % len(pads)], "ins": ins[k:k + 48]}
+
+
 def corpus():
     return [
         {"kind": "batch", "pad": 3, "ins": [["jal", 1, -12], ["beq", 1, 2, -4096], ["lui", 5, -1], ["sw", 2, 3, -2048], ["csrrwi", 1, 0xFFF, 31],
@@ -149,6 +185,8 @@ def shards(tier, seed):
         for i in range(4):
             items.append({"what": "batch", "ops": ALL53[i::4], "size": 40, "n": 25, "max_pad": 200, "seed": seed * 1000 + i})
         items.append({"what": "listing", "n": 300, "seed": seed * 1000 + 50})
+        for i in range(4):
+            items.append({"what": "grid", "ops": ALL53[i::4]})
         items.append({"what": "batch", "ops": ["jal", "beq", "auipc", "jalr", "jal", "bne"], "size": 24, "n": 3, "min_pad": 2048, "max_pad": 4060,
                       "seed": seed * 1000 + 60})
     else:
@@ -156,11 +194,17 @@ def shards(tier, seed):
             items.append({"what": "batch", "ops": ALL53[i::16] * 10, "size": 40, "n": 450, "max_pad": 200 if i % 4 else 4000, "seed": seed * 1000 + i})
         for i in range(4):
             items.append({"what": "listing", "n": 2500, "seed": seed * 1000 + 50 + i})
+        for i in range(16):
+            items.append({"what": "grid", "ops": ALL53[i::16]})
     return items
 
 
 def run_shard(item, stats):
     km = core.known_matcher(ID, globals().get("known_match"))
+    if item["what"] == "grid":
+        core.run_cases(grid_cases(item["ops"]), check, stats, km)
+        stats.exhaustive_parts.append("per-mnemonic register x immediate boundary grid; all 4096 CSR numbers for csrrw / csrrwi")
+        return
     if item["what"] == "batch":
         core.hyp_search(batch_case(item["ops"], item["size"], item["max_pad"], item.get("min_pad", 0)), check, stats, item["n"], item["seed"], km,
                         shrink=not item.get("min_pad"))
